@@ -403,10 +403,10 @@ func Resolve(root reflect.Value, p Path) Resolved {
 				}
 				e := base.MapIndex(reflect.ValueOf(s.Name).Convert(base.Type().Key()))
 				if !e.IsValid() {
-					if !s.Bracket {
+					if !s.Bracket && i == len(p.Steps)-1 {
 						return Resolved{Out: OUnspecified, Why: "absent key through dot access"}
 					}
-					if i != len(p.Steps)-1 {
+					if i != len(p.Steps)-1 { // whatever m.absent is taken to be (nil or an error), an access below it fails
 						return Resolved{Out: OError, Why: "access on absent entry", FailAt: i + 1}
 					}
 					return Resolved{Out: ONil, Why: "absent key"}
